@@ -9,11 +9,14 @@ From Coq Require Import ZifyBool ZifyNat ZifyN.
 (* ---------- histories that respect the contract ---------- *)
 Definition node_ok (n : node) : Prop := payrun n = 0 /\ (busy n -> hot n) /\ forall g, ds n <> Some (DGarbage, g).
 
+Section Level.
+Variable lv : bool.   (* the level of the environment hypothesis: see Proofs/SysNode.v *)
+
 Inductive wreach (c : cfg) : sys -> Prop :=
 | wr_start n t0 h0 a0 : node_ok n -> wreach c (sys_start n t0 h0 a0)
-| wr_step s ev : wreach c s -> ev_wf s ev -> wreach c (fst (step c s ev)).
+| wr_step s ev : wreach c s -> ev_wf lv s ev -> wreach c (fst (step c s ev)).
 
-Lemma NInv_start n t0 h0 a0 : node_ok n -> NInv (sys_start n t0 h0 a0).
+Lemma NInv_start n t0 h0 a0 : node_ok n -> NInv lv (sys_start n t0 h0 a0).
 Proof.
   intros (Hp & Hwa & Hng). constructor; cbn [sys_start nd pl lcs calls].
   - intros [|i] x Hx; discriminate.
@@ -25,7 +28,7 @@ Proof.
   - intros [|k] cl y Hk; discriminate.
 Qed.
 
-Theorem wreach_inv c s : wreach c s -> reachable c s /\ InvC c s /\ InvO s /\ NInv s.
+Theorem wreach_inv c s : wreach c s -> reachable c s /\ InvC c s /\ InvO s /\ NInv lv s.
 Proof.
   induction 1 as [n t0 h0 a0 Hn|s ev Hw (Hr & HC & HO & HN) Hwf].
   - split; [constructor|]. split; [constructor; [intros [|i] x Hx; discriminate|intros [|i] j x y k _ Hx; discriminate]|].
@@ -73,29 +76,30 @@ Theorem pay_only_when_quiet c s ev cid b am mf md rt :
 Proof.
   intros Hw Hin. destruct (wreach_inv c s Hw) as (_ & HC & HO & HN). pose proof (wreach_U c s Hw) as HU.
   destruct (pay_call_origin c s ev cid b am mf md rt Hin) as (i & x & k & a & g & am' & mf' & md' & Hx & Hp).
-  pose proof (ni_lc s HN i x Hx) as Hlc. rewrite Hp in Hlc. destruct Hlc as (Haf & Hh & _).
+  pose proof (ni_lc lv s HN i x Hx) as Hlc. rewrite Hp in Hlc. destruct Hlc as (Haf & Hh & _).
   split; [split; [exact Haf|]|exact Hh].
-  exact (proj1 (not_paying c s i x HU HC HO HN Hx ltac:(rewrite Hp; reflexivity) ltac:(rewrite Hp; intros; discriminate))).
+  exact (proj1 (not_paying lv c s i x HU HC HO HN Hx ltac:(rewrite Hp; reflexivity) ltac:(rewrite Hp; intros; discriminate))).
 Qed.
 
 (* C08: write-ahead, in every reachable state *)
 Theorem write_ahead c s : wreach c s -> busy (nd s) \/ payrun (nd s) <> 0 -> hot (nd s).
-Proof. intros Hw. destruct (wreach_inv c s Hw) as (_ & _ & _ & HN). exact (ni_wa s HN). Qed.
+Proof. intros Hw. destruct (wreach_inv c s Hw) as (_ & _ & _ & HN). exact (ni_wa lv s HN). Qed.
 
 (* ---------- C02: when a lifecycle resolves with a failure ---------- *)
 Lemma shape_fail_quiet c s i x cid cl y m p' new cn :
-  InvU s -> InvC c s -> InvO s -> NInv s ->
+  lv = true -> InvU s -> InvC c s -> InvO s -> NInv lv s ->
   nth_error (lcs (pl s)) i = Some x -> nth_error (calls s) cid = Some cl -> c_st cl = Replied y ->
   lc_shape c (l_info x) (length (calls s)) (now s) (l_pc x) cid y = Some (LResolve (Fail m) p' new cn) ->
   quiet (nd s).
 Proof.
-  intros HU HC HO HN Hx Hcl Hrep Hsh.
+  intros Hlv HU HC HO HN Hx Hcl Hrep Hsh.
   assert (Hst : st_of (calls s) cid = Some (Replied y)) by (rewrite (st_of_nth _ _ _ Hcl), Hrep; reflexivity).
-  pose proof (ni_lc s HN i x Hx) as Hlc. pose proof (ic_typed c s HC i x Hx) as Hty. pose proof (ni_r s HN cid cl y Hcl Hrep) as Hry.
+  pose proof (ni_lc lv s HN i x Hx) as Hlc. pose proof (ic_typed c s HC i x Hx) as Hty. pose proof (ni_r lv s HN cid cl y Hcl Hrep) as Hry.
+  unfold typed_reply in Hry. rewrite Hlv in Hry.
   assert (NP : attached (l_pc x) = true -> (forall k a g, l_pc x <> PPay k a g) -> payrun (nd s) = 0)
-    by (intros Ax Hnp; exact (proj1 (not_paying c s i x HU HC HO HN Hx Ax Hnp))).
+    by (intros Ax Hnp; exact (proj1 (not_paying lv c s i x HU HC HO HN Hx Ax Hnp))).
   assert (NN : forall w, attached (l_pc x) = true -> (forall k a g, l_pc x <> PPay k a g) -> no_new (wproj (nd s) (calls s) w))
-    by (intros w Ax Hnp; exact (no_new_of c s i x w HU HC HO HN Hx Ax Hnp)).
+    by (intros w Ax Hnp; exact (no_new_of lv c s i x w HU HC HO HN Hx Ax Hnp)).
   destruct (l_pc x) as [k1|kk w|k1 a g t|k1 a g t|d|k1 a am mf md|k1 a g am mf md|k1 a g|k1 a pr|k1 a|k1 a g|k1 a g| |] eqn:Hp;
     unfold lc_shape in Hsh; try discriminate;
     try (destruct (Nat.eqb k1 cid) eqn:E; cbn [negb] in Hsh; [apply Nat.eqb_eq in E; subst k1|discriminate]);
@@ -140,16 +144,16 @@ Proof.
 Qed.
 
 Lemma select_quiet c s i x d :
-  InvU s -> InvC c s -> InvO s -> NInv s -> nth_error (lcs (pl s)) i = Some x -> l_pc x = PSelect d -> quiet (nd s).
+  InvU s -> InvC c s -> InvO s -> NInv lv s -> nth_error (lcs (pl s)) i = Some x -> l_pc x = PSelect d -> quiet (nd s).
 Proof.
-  intros HU HC HO HN Hx Hp. pose proof (ni_lc s HN i x Hx) as Hlc. rewrite Hp in Hlc. split; [exact Hlc|].
-  exact (proj1 (not_paying c s i x HU HC HO HN Hx ltac:(rewrite Hp; reflexivity) ltac:(rewrite Hp; intros; discriminate))).
+  intros HU HC HO HN Hx Hp. pose proof (ni_lc lv s HN i x Hx) as Hlc. rewrite Hp in Hlc. split; [exact Hlc|].
+  exact (proj1 (not_paying lv c s i x HU HC HO HN Hx ltac:(rewrite Hp; reflexivity) ltac:(rewrite Hp; intros; discriminate))).
 Qed.
 
 Theorem fail_only_when_quiet c s ev h m :
-  wreach c s -> In (OResp h (Fail m)) (snd (step c s ev)) -> quiet (nd s).
+  lv = true -> wreach c s -> In (OResp h (Fail m)) (snd (step c s ev)) -> quiet (nd s).
 Proof.
-  intros Hw Hin. destruct (wreach_inv c s Hw) as (_ & HC & HO & HN). pose proof (wreach_U c s Hw) as HU.
+  intros Hlv Hw Hin. destruct (wreach_inv c s Hw) as (_ & HC & HO & HN). pose proof (wreach_U c s Hw) as HU.
   destruct ev; cbn [step] in *; try (destruct Hin; fail).
   - (* EvHtlc: answers nobody *)
     exfalso. destruct (entry_ (pl s)) as [e|] eqn:He; [destruct Hin|destruct Hin as [Hin|[]]; discriminate].
@@ -176,11 +180,11 @@ Proof.
       assert (In (OResp h (Fail m)) (resps out)) by (apply filter_In; split; [exact Hin'|reflexivity]). rewrite Hno in H. destruct H.
     + unfold do_resolve in Hin'. destruct (entry_ (pl s)) as [en|]; cbn [a_out] in Hin'; [|destruct Hin' as [H|[]]; discriminate].
       rewrite app_nil_r in Hin'. unfold resolve_outs in Hin'. apply in_map_iff in Hin' as (h0 & Hh0 & _). inversion Hh0; subst r.
-      exact (shape_fail_quiet c s i x cid cl y m p' new cancel HU HC HO HN Hx Hcl Hst Hsh).
-    + pose proof (shape_node_ok c s i x cid cl y (LSelect d) HU HC HO HN Hx Hcl Hst Hsh) as Haf. cbn [shape_goal] in Haf.
+      exact (shape_fail_quiet c s i x cid cl y m p' new cancel Hlv HU HC HO HN Hx Hcl Hst Hsh).
+    + pose proof (shape_node_ok lv c s i x cid cl y (LSelect d) HU HC HO HN Hx Hcl Hst Hsh) as Haf. cbn [shape_goal] in Haf.
       split; [exact Haf|].
       destruct (lc_shape_select_attached _ _ _ _ _ _ _ _ Hsh) as (Ax & _ & Hwhich).
-      apply (not_paying c s i x HU HC HO HN Hx Ax).
+      apply (not_paying lv c s i x HU HC HO HN Hx Ax).
       intros k a g Hp. destruct Hwhich as [(k0 & E)|(k0 & a0 & g0 & t0 & E)]; congruence.
   - destruct (nth_error (parts (nd s)) pid) as [[]|], st; destruct Hin.
   - destruct (nth_error (calls s) cid) as [[q st]|]; [|destruct Hin]. destruct q; try (destruct Hin; fail). destruct st; destruct Hin.
@@ -295,9 +299,9 @@ Proof.
 Qed.
 
 Lemma step_clean c s ev :
-  InvU s -> InvC c s -> NInv s -> NoPan s -> ~ In OPanic (snd (step c s ev)) /\ NoPan (fst (step c s ev)).
+  lv = true -> InvU s -> InvC c s -> NInv lv s -> NoPan s -> ~ In OPanic (snd (step c s ev)) /\ NoPan (fst (step c s ev)).
 Proof.
-  intros HU HC HN Hnp. destruct ev; cbn [step]; try (split; [intros []|exact Hnp]).
+  intros Hlv HU HC HN Hnp. destruct ev; cbn [step]; try (split; [intros []|exact Hnp]).
   - (* EvHtlc *)
     destruct (entry_ (pl s)) as [e|] eqn:He; [split; [intros []|exact Hnp]|].
     split; [intros [H|[]]; discriminate|].
@@ -318,7 +322,8 @@ Proof.
     destruct (find_owner_spec _ _ _ _ _ _ _ _ _ _ _ _ _ Hf) as (x & Hx & _ & Hdl). rewrite Nat.sub_0_r in Hx.
     rewrite lc_deliver_shape in Hdl. destruct (lc_shape c (l_info x) (length (calls s)) (now s) (l_pc x) cid y) as [sh|] eqn:Hsh; [|discriminate].
     cbn [option_map] in Hdl. inversion Hdl; subst a; clear Hdl.
-    pose proof (shape_clean c (l_info x) (calls s) _ _ _ cid y cl sh (ic_typed c s HC i x Hx) Hcl (ni_r s HN cid cl y Hcl Hst) Hsh) as Hc.
+    pose proof (ni_r lv s HN cid cl y Hcl Hst) as Hry. unfold typed_reply in Hry. rewrite Hlv in Hry.
+    pose proof (shape_clean c (l_info x) (calls s) _ _ _ cid y cl sh (ic_typed c s HC i x Hx) Hcl Hry Hsh) as Hc.
     apply (apply_adv_clean (with_calls s (set_status cid Delivered (calls s))) i _ x Hx Hnp).
     + destruct sh as [p' new out cancel|r p' new cancel|d]; cbn [adv_of a_pc].
       * exact (proj1 Hc).
@@ -340,13 +345,13 @@ Proof.
   - split; [intros []|intros [|i] x Hx; discriminate].
 Qed.
 
-Theorem wreach_no_panic c s : wreach c s -> NoPan s /\ forall ev, ~ In OPanic (snd (step c s ev)).
+Theorem wreach_no_panic c s : lv = true -> wreach c s -> NoPan s /\ forall ev, ~ In OPanic (snd (step c s ev)).
 Proof.
-  intros Hw.
+  intros Hlv Hw.
   assert (Hnp : NoPan s).
   { induction Hw as [n t0 h0 a0 Hn|s ev Hw IH Hwf]; [intros [|i] x Hx; discriminate|].
-    destruct (wreach_inv c s Hw) as (_ & HC & _ & HN). exact (proj2 (step_clean c s ev (wreach_U c s Hw) HC HN IH)). }
-  split; [exact Hnp|]. intros ev. destruct (wreach_inv c s Hw) as (_ & HC & _ & HN). exact (proj1 (step_clean c s ev (wreach_U c s Hw) HC HN Hnp)).
+    destruct (wreach_inv c s Hw) as (_ & HC & _ & HN). exact (proj2 (step_clean c s ev Hlv (wreach_U c s Hw) HC HN IH)). }
+  split; [exact Hnp|]. intros ev. destruct (wreach_inv c s Hw) as (_ & HC & _ & HN). exact (proj1 (step_clean c s ev Hlv (wreach_U c s Hw) HC HN Hnp)).
 Qed.
 
 (* ---------- C06: no deadlock — while HTLCs are held, their lifecycle is waiting for something that will come ---------- *)
@@ -379,14 +384,6 @@ Proof.
   - destruct y; inversion Hsh; subst; cbn in Hpc; inversion Hpc; subst; discriminate.
   - inversion Hsh; subst; cbn in Hpc; inversion Hpc; subst; discriminate.
 Qed.
-
-Lemma select_poll_not_wait c li base hgt tnow d e sel na kk w : a_pc (select_poll c li base hgt tnow d e sel na) <> PWait kk w.
-Proof.
-  unfold select_poll, go_pay, do_resolve, stay. destruct e as [en|]; [|discriminate].
-  destruct (rdy_q en); destruct (fail_q en); try destruct sel; discriminate.
-Qed.
-Lemma enter_select_not_wait c li base hgt tnow d e sel na kk w : a_pc (enter_select c li base hgt tnow d e sel na) <> PWait kk w.
-Proof. unfold enter_select. destruct (d =? 0); [unfold do_resolve; destruct e; discriminate|apply select_poll_not_wait]. Qed.
 
 Lemma apply_adv_InvW s i a x : nth_error (lcs (pl s)) i = Some x -> InvW s -> (forall kk, a_pc a <> PWait kk (WParts [])) -> InvW (fst (apply_adv s i a)).
 Proof.
@@ -437,13 +434,13 @@ Qed.
    either sleeping in the select! with a deadline at most one MPP timeout ahead, or waiting for at least one RPC that
    is still live (unprocessed, running, or answered and not yet delivered) — so the environment can always move it *)
 Theorem never_stuck c s e :
-  wreach c s -> entry_ (pl s) = Some e ->
+  lv = true -> wreach c s -> entry_ (pl s) = Some e ->
   exists i x, nth_error (lcs (pl s)) i = Some x /\ attached (l_pc x) = true /\
     ((exists d, l_pc x = PSelect d /\ now s < d /\ d <= now s + mpp_ms c) \/
      (awaits (l_pc x) <> [] /\ forall k, In k (awaits (l_pc x)) -> exists cl, nth_error (calls s) k = Some cl /\ live (c_st cl))).
 Proof.
-  intros Hw He. destruct (wreach_inv c s Hw) as (Hr & HC & _ & _). destruct (reachable_inv c s Hr) as (HU & _ & HT).
-  destruct (wreach_no_panic c s Hw) as (Hnp & _). pose proof (wreach_W c s Hw) as HW.
+  intros Hlv Hw He. destruct (wreach_inv c s Hw) as (Hr & HC & _ & _). destruct (reachable_inv c s Hr) as (HU & _ & HT).
+  destruct (wreach_no_panic c s Hlv Hw) as (Hnp & _). pose proof (wreach_W c s Hw) as HW.
   unfold InvU in HU. rewrite He in HU. destruct (n_att_exists (lcs (pl s)) ltac:(lia)) as (i & x & Hx & Ax).
   exists i, x. split; [exact Hx|]. split; [exact Ax|].
   pose proof (ic_typed c s HC i x Hx) as Hty.
@@ -468,7 +465,7 @@ Qed.
 
 (* ---------- histories ---------- *)
 Fixpoint hist_wf (c : cfg) (s : sys) (evs : list event) : Prop :=
-  match evs with [] => True | ev :: r => ev_wf s ev /\ hist_wf c (fst (step c s ev)) r end.
+  match evs with [] => True | ev :: r => ev_wf lv s ev /\ hist_wf c (fst (step c s ev)) r end.
 
 Lemma wreach_run c : forall evs s, wreach c s -> hist_wf c s evs -> wreach c (fst (run c s evs)).
 Proof.
@@ -486,9 +483,9 @@ Proof. intros Hn Hwf. apply wreach_run; [constructor; exact Hn|exact Hwf]. Qed.
 (* ---------- the record is free or absent only when nothing is pending or complete and no pay command runs ---------- *)
 Theorem free_means_quiet c s : wreach c s -> free_view (ds (nd s)) -> quiet (nd s).
 Proof.
-  intros Hw Hf. destruct (wreach_inv c s Hw) as (_ & _ & _ & HN). split; [exact (free_all_failed s HN Hf)|].
+  intros Hw Hf. destruct (wreach_inv c s Hw) as (_ & _ & _ & HN). split; [exact (free_all_failed lv s HN Hf)|].
   destruct (N.eq_dec (payrun (nd s)) 0) as [E|E]; [exact E|]. exfalso.
-  pose proof (ni_wa s HN (or_intror E)) as Hh. unfold hot in Hh. unfold free_view in Hf. destruct (ds (nd s)) as [[[] ?]|]; cbn in *; tauto.
+  pose proof (ni_wa lv s HN (or_intror E)) as Hh. unfold hot in Hh. unfold free_view in Hf. destruct (ds (nd s)) as [[[] ?]|]; cbn in *; tauto.
 Qed.
 
 (* ---------- a completed part stays completed ---------- *)
@@ -570,3 +567,23 @@ Proof.
   - left. exists en'. unfold apply_adv. cbn [fst pl entry_]. auto.
   - right. exists r. intros h Hh. unfold apply_adv. cbn [snd]. apply in_or_app. left. exact (Hr h Hh).
 Qed.
+
+End Level.
+
+Lemma ev_wf_strict s cid f :
+  ev_wf true s (EvProcess cid f) <-> (f = NoFault \/ forall cl, nth_error (calls s) cid = Some cl -> is_read (c_rpc cl) = false).
+Proof.
+  cbn. split.
+  - intros [H|H]; [left; exact H|right]. intros cl Hcl. destruct (H cl Hcl) as [E|(E & _)]; [exact E|discriminate].
+  - intros [H|H]; [left; exact H|right]. intros cl Hcl. left. exact (H cl Hcl).
+Qed.
+
+(* the strict level implies the other one *)
+Lemma ev_wf_weaken s ev : ev_wf true s ev -> ev_wf false s ev.
+Proof.
+  destruct ev; cbn; auto. intros [H|H]; [left; exact H|right]. intros cl Hcl. destruct (H cl Hcl) as [E|(E & _)]; [left; exact E|discriminate].
+Qed.
+Lemma wreach_weaken c s : wreach true c s -> wreach false c s.
+Proof. induction 1 as [n t0 h0 a0 Hn|s ev _ IH Hwf]; [constructor; exact Hn|constructor; [exact IH|apply ev_wf_weaken; exact Hwf]]. Qed.
+Lemma hist_wf_weaken c : forall evs s, hist_wf true c s evs -> hist_wf false c s evs.
+Proof. induction evs as [|ev r IH]; intros s H; [exact I|]. destruct H as (H1 & H2). split; [apply ev_wf_weaken; exact H1|apply IH; exact H2]. Qed.
